@@ -23,7 +23,7 @@ package cache
 //@ field EntryMetadata.Size guarded_by immutable
 //@ field EntryMetadata.TimeWritten guarded_by immutable
 //@ field MemoryCache.memoryCap guarded_by mu
-//@ field map_map_cache.CacheKey guarded_by mu
+//@ field map_map_cache.CacheKey guarded_by mu+shard
 //@ field cacheJanitor.interval guarded_by confined:newCacheJanitor,cacheJanitor.start,cacheJanitor.start$1
 
 // ---------------------------------------------------------------- cache keys (C02)
